@@ -459,7 +459,7 @@ func HarnessC07Bool() {
 func HarnessC07Print() {
 	c := verifParam("case", -1)
 	if c < 0 {
-		c = verifChoice(6)
+		c = verifChoice(7)
 	}
 	switch c {
 	case 0: // booleans print as True / False
@@ -513,6 +513,27 @@ func HarnessC07Print() {
 			want += "O"
 		}
 		verifAssert(ok && out == want, "string ==, != and in verdicts")
+	case 5: // membership of integers and strings in lists: in-template list literals and context slices
+		a, b := verifInt(), verifInt()
+		s, t := symStringLen(0, 1), symStringLen(0, 1)
+		out, ok := render("{% if a in [a, b] %}1{% endif %}{% if a in [b] %}2{% endif %}{% if a in l %}3{% endif %}{% if s in [t, s] %}4{% endif %}"+
+			"{% if a + 1 in [b] %}5{% endif %}{% if not (a in [b, 7]) %}6{% endif %}{% if s in ls %}7{% endif %}{% if a in [] %}8{% endif %}", Context{"a": a, "b": b, "l": []int{b}, "s": s, "t": t, "ls": []string{t}})
+		want := "1"
+		if a == b {
+			want += "23"
+		}
+		want += "4"
+		if a+1 == b {
+			want += "5"
+		}
+		if a != b && a != 7 {
+			want += "6"
+		}
+		if s == t {
+			want += "7"
+		}
+		verifObserve("out", out)
+		verifAssert(ok && out == want, "membership verdicts of integers/strings in list literals and context slices")
 	default: // integer division / modulo by zero are execution errors, in evaluation order
 		a, b := verifInt(), verifInt()
 		_, ok := render("{% if a / b %}{% endif %}", Context{"a": a, "b": b})
@@ -522,4 +543,50 @@ func HarnessC07Print() {
 		_, ok = render("{% if a == 0 or 1 / a == 0 or true %}x{% endif %}", Context{"a": a})
 		verifAssert(ok, "short circuit: the division must not be evaluated when a == 0")
 	}
+}
+
+// every Go integer kind a context can hold behaves like "an integer": the same verdicts and the
+// same printed results as the int of the same value (small values: 0..255 resp. -128..127)
+func HarnessC07Kinds() {
+	b := verifByte()
+	var n, other any
+	var l any
+	v := int(b)
+	switch verifChoice(10) {
+	case 0:
+		n, other, l = int8(b), int8(b)+1, []int8{int8(b)}
+		v = int(int8(b))
+	case 1:
+		n, other, l = int16(b), int16(b)+1, []int16{int16(b)}
+	case 2:
+		n, other, l = int32(b), int32(b)+1, []int32{int32(b)}
+	case 3:
+		n, other, l = int64(b), int64(b)+1, []int64{int64(b)}
+	case 4:
+		n, other, l = uint(b), uint(b)+1, []uint{uint(b)}
+	case 5:
+		n, other, l = uint8(b), uint8(b)+1, []uint8{uint8(b)}
+		if b == 255 {
+			other = uint8(3)
+		}
+	case 6:
+		n, other, l = uint16(b), uint16(b)+1, []uint16{uint16(b)}
+	case 7:
+		n, other, l = uint32(b), uint32(b)+1, []uint32{uint32(b)}
+	case 8:
+		n, other, l = uint64(b), uint64(b)+1, []uint64{uint64(b)}
+	default:
+		n, other, l = int(b), int(b)+1, []int{int(b)}
+	}
+	if v == 127 {
+		verifAssume(verifChoice(1) == 0) // (int8(127)+1 wraps: keep 'other' different from n anyway)
+	}
+	ctx := Context{"n": n, "o": other, "r": v, "l": l}
+	out, ok := render("{% if n == r %}E{% endif %}{% if n != r %}N{% endif %}{% if r == n %}e{% endif %}{% if n == o %}X{% endif %}{% if n != o %}D{% endif %}"+
+		"{% if r in l %}I{% endif %}{% if n in l %}i{% endif %}{% if o in l %}x{% endif %}|{{ -n + 1 }}|{{ n + 1 }}|{{ n * 2 }}|{{ n - r }}|{{ n / 1 }}|{{ n % 7 }}|"+
+		"{% if n < r + 1 %}L{% endif %}{% if n >= r %}G{% endif %}{% if n > r %}g{% endif %}{% if not (n == r) %}!{% endif %}{% if n == r and n + 0 == r %}A{% endif %}", ctx)
+	verifObserve("out", out)
+	want := "EeDIi|" + itoa(-v+1) + "|" + itoa(v+1) + "|" + itoa(v*2) + "|0|" + itoa(v) + "|" + itoa(v%7) + "|LGA"
+	verifAssert(ok, "integer kinds: expressions must evaluate")
+	verifAssert(out == want, "a context integer of another Go kind evaluates differently from the int of the same value")
 }
